@@ -581,6 +581,19 @@ class Facts:
     self.adts = {}
     self.consts = {}
     self.meta = {}
+    import gc
+    gc_was = gc.isenabled()
+    gc.disable()  # loading ~40 MB of small JSON objects is twice as fast without the cycle collector
+    try:
+      self._load(directory)
+    finally:
+      if gc_was:
+        gc.enable()
+    self._hir_loaded = False
+    self._callers = None
+    self._callees = None
+
+  def _load(self, directory):
     for crate in ('ordinals', 'ord'):
       with open(os.path.join(directory, f'{crate}.mir.jsonl')) as fh:
         for line in fh:
